@@ -11,13 +11,12 @@ open SJ SJ.Model.FromValue
 /-- **C16, the text leg under `float_roundtrip`.** As `c16_text_agrees_partial`, for values with arbitrary finite floats: the
     hypothesis "the printer / parser pair returns the floats of the value" is C07's round trip (`c07_correct` +
     the named hypothesis `RyuShortest` about the external printer `ryu`: shortest digits, at most 24 bytes, written with a
-    fraction or an exponent, the exact value rounding to the float). Still missing: a float in a schema with a 128-bit integer
-    target, `arbitrary_precision`. -/
+    fraction or an exponent, the exact value rounding to the float). A float under a 128-bit integer target is included (the
+    proviso `floatsPointed` of `c16_text_agrees_partial` is part of `RyuShortest`). Still missing: `arbitrary_precision`. -/
 theorem c16_text_agrees_fr (mcfg : Model.Machine.Cfg) (hfr : mcfg.fr = true) (hap : mcfg.ap = false) (src : Model.Machine.Src)
     (ext : Spec.Program.Ext) (hext : Spec.Program.ExtOK ext) (hr : SJ.Proofs.LexTopRoundtrip.RyuShortest ext) (ext' : Ext)
     (s : Schema) (hs : Proofs.Typed.agreeFrag2 s = true)
     (v : JV) (hv : Spec.WF.shapeOK (Proofs.CanonM.specCfg mcfg) v = true)
-    (h128 : Proofs.Typed.has128 s = false ∨ Spec.WF.noFloat v = true)
     (hx : v.hasArrayPayload s.structVariantNames = false)
     (hd : mcfg.limitOff = true ∨ Spec.WF.depthJV v ≤ 127) :
     ∃ bufs, Model.Ser.serCompact ext (Model.Ser.ofValue v) = .ok bufs ∧
@@ -27,7 +26,16 @@ theorem c16_text_agrees_fr (mcfg : Model.Machine.Cfg) (hfr : mcfg.fr = true) (ha
   c16_text_agrees_partial mcfg hap src ext hext ext' s hs v hv
     (SJ.Proofs.RoundTrip.floatsRT_of_all _ ext
       (fun b hb => SJ.Proofs.LexTopParser.floatRT_fr (Proofs.CanonM.specCfg mcfg) hfr hap ext hext hr b hb) v hv)
-    h128 hx hd
+    (.inr (Proofs.Typed.floatsPointed_of_all ext (fun b hb => by
+        have h := (hr.f64_text b hb).2.1
+        unfold Proofs.Typed.floatPointed
+        rcases h with h | h
+        · cases hf : (Spec.Number.splitNumber (ext.ryu64 b)).frac with
+          | nil => exact absurd hf h
+          | cons _ _ => simp
+        · cases he : (Spec.Number.splitNumber (ext.ryu64 b)).exp with
+          | nil => exact absurd he h
+          | cons _ _ => simp) v (Proofs.Typed.shapeW_of_shapeOK _ hap v hv))) hx hd
 
 /-- non-vacuity of the float hypothesis at one value: a printer that writes `1.5` for `0x3ff8000000000000` -/
 example (ext : Spec.Program.Ext) (h : ext.ryu64 0x3ff8000000000000 = [0x31, 0x2e, 0x35]) :
